@@ -163,9 +163,9 @@ Proof.
       unfold data_ok, set_data, set_sizes. cbn [sdata sbsize soff svsize]. split; [|split; assumption].
       rewrite patch_all_length; [assumption|]. intros e He. unfold es in He. apply in_map_iff in He. destruct He as [c [<- Hc]].
       rewrite forallb_forall in Eb. specialize (Eb c Hc). unfold site_in_bounds in Eb.
-      apply andb_true_iff in Eb. destruct Eb as [Eb E3]. apply andb_true_iff in Eb. destruct Eb as [E1 E2].
-      apply Z.leb_le in E1, E3. apply Z.ltb_lt in E2. unfold site_entry, site_pos, site_len, CALL_LEN, ABS_LEN in *.
-      destruct c as [pos addr|pos tg lo]; cbn [e_off e_lead e_fmt vsize sfmt ufmt]; lia. }
+      apply andb_true_iff in Eb. destruct Eb as [Eb E4]. apply andb_true_iff in Eb. destruct Eb as [Eb E3]. apply andb_true_iff in Eb. destruct Eb as [E1 E2].
+      apply Z.leb_le in E1, E3, E4. apply Z.ltb_lt in E2. unfold site_entry, site_pos, site_len, CALL_LEN, ABS_LEN in *.
+      destruct c as [pos addr|pos tg lo|pos t1 o1 t2 o2 n]; cbn [e_off e_lead e_fmt vsize sfmt ufmt]; lia. }
   fold G.
   assert (HF : Forall2 shr_rel h (map G h) /\ Forall data_ok (map G h) /\ map soff (map G h) = map soff h /\ map sid (map G h) = map sid h).
   { split; [apply Forall2_map_in; intros s Hs; apply Hel; assumption|]. split; [|split].
